@@ -47,6 +47,7 @@ class TranslateError(Exception):
 
 TOKEN = re.compile(r"\s*(?:(0x[0-9a-fA-F_]+|0b[01_]+|[0-9][0-9_]*)((?:_?[ui](?:8|16|32|64|128|size))?)"
                    r"|([A-Za-z_][A-Za-z0-9_]*)|(\.\.=|\.\.|<<=|>>=|<<|>>|\+=|-=|\*=|&=|\|=|\^=|==|!=|<=|>=|&&|\|\||->|::|[-+*/%&|^!=<>()\[\]{};:,.#]))")
+_STRLIT = re.compile(r'\s*("(?:[^"\\\n]|\\.)*")')
 INT_TYPES = {"u8": 8, "u16": 16, "u32": 32, "u64": 64, "u128": 128, "usize": 64, "i8": 8, "i16": 16, "i32": 32, "i64": 64}
 
 
@@ -61,6 +62,13 @@ def lex(src):
     while i < len(src):
         if src[i:].strip() == "":
             break
+        ms = _STRLIT.match(src, i)
+        if ms:
+            # an ordinary string literal (assert!/panic! message): its own token kind, which no expression parser accepts —
+            # it is harmless only where a whole macro argument is ignored (the message arguments of assert!/assert_eq!/panic!)
+            out.append(("str", ms.group(1), None))
+            i = ms.end()
+            continue
         m = TOKEN.match(src, i)
         if not m:
             raise TranslateError(f"cannot lex near {src[i:i+30]!r}")
@@ -830,6 +838,28 @@ def show(e):
     raise TranslateError(f"cannot show {e}")
 
 
+def file_int_const(file, name):
+    """(value, type) of the UNIQUE module-level `const NAME: uN = <integer literal>;` of `file` (brace depth 0, not under an
+    attribute such as #[cfg]); None when there is no such item, it is not unique, or its right-hand side is not a plain literal"""
+    try:
+        text = strip_comments(open(os.path.join(repo(), file)).read())
+    except OSError:
+        return None
+    if len(re.findall(r"\bconst\s+%s\b" % re.escape(name), text)) != 1:
+        return None
+    m = re.search(r"(^|\n)([ \t]*)((?:pub(?:\([a-z]+\))?\s+)?)const\s+%s\s*:\s*(u8|u16|u32|u64|u128|usize)\s*=\s*(0x[0-9a-fA-F_]+|0b[01_]+|[0-9][0-9_]*)\s*;"
+                  % re.escape(name), text)
+    if not m:
+        return None
+    before = text[:m.start(3)]
+    if before.count("{") != before.count("}"):
+        return None
+    prev = [l for l in before.split("\n") if l.strip()]
+    if prev and prev[-1].strip().startswith("#"):
+        return None
+    return (int(m.group(5).replace("_", ""), 0), m.group(4))
+
+
 def is_const_expr(e, consts):
     k = e[0]
     if k == "lit":
@@ -928,6 +958,11 @@ class Tr:
                 if base in self.k.consts:
                     t, ty = self.k.consts[base]
                     return (t, ty, True)
+                lit = file_int_const(self.k.file, base) if "::" not in name else None
+                if lit is not None:
+                    # a module-level `const NAME: <int type> = <integer literal>;` of the kernel's own file: translated as the
+                    # literal it names (so that naming a magic number does not change the generated text)
+                    return self.ex(("lit", lit[0], lit[1]), want)
                 raise TranslateError(f"unknown identifier {name}")
             if k == "index":
                 # array variable indexed by literal: model arrays as python-side tuples of vars
